@@ -55,6 +55,17 @@ def _narrow(data, dtype):
             data[k] = int(v)
 
 
+_REAL_NAMES = {}
+
+
+def _real_names(fmt):
+    if fmt not in _REAL_NAMES:
+        import scipy.sparse as sp
+        cls = getattr(sp, f"{fmt}_matrix", None) if fmt else None
+        _REAL_NAMES[fmt] = frozenset(dir(cls)) if cls is not None else frozenset()
+    return _REAL_NAMES[fmt]
+
+
 class spmatrix:
     ndim = 2
     _is_sx_model = True
@@ -222,6 +233,42 @@ class spmatrix:
 
     def __neg__(self):
         return self * -1
+
+    def __matmul__(self, other):
+        """sparse @ sparse: the product as a csr matrix over the structurally non-zero positions (entries in column order;
+        scipy's own order within a row is unspecified)"""
+        if not isinstance(other, spmatrix):
+            raise core.Unsupported("sparse @ non-sparse")
+        if self._shape[1] != other._shape[0]:
+            raise ValueError("dimension mismatch")
+        a, b_ = self.tocsr(), other.tocsr()
+        data, indices, indptr = [], [], [0]
+        for i in range(a._shape[0]):
+            acc = {}
+            for p in range(int(a.indptr[i]), int(a.indptr[i + 1])):
+                k, va = int(a.indices[p]), a.data[p]
+                for q in range(int(b_.indptr[k]), int(b_.indptr[k + 1])):
+                    j, vb = int(b_.indices[q]), b_.data[q]
+                    acc[j] = acc[j] + va * vb if j in acc else va * vb
+            for j in sorted(acc):
+                data.append(acc[j])
+                indices.append(j)
+            indptr.append(len(data))
+        out = csr_matrix((data, indices, indptr), shape=(a._shape[0], b_._shape[1]))
+        return out
+
+    def dot(self, other):
+        return self.__matmul__(other)
+
+    def _not_modelled(self, *a, **k):
+        raise core.Unsupported("sparse-matrix operation outside the model")
+    __add__ = __radd__ = __sub__ = __rsub__ = __pow__ = __rmatmul__ = multiply = maximum = minimum = power = _not_modelled
+
+    def __getattr__(self, name):
+        # what scipy's matrix of the same format provides but the model does not is "not encodable", never a library error
+        if not name.startswith('_') and name in _real_names(getattr(type(self), 'format', None)):
+            raise core.Unsupported(f"sparse-matrix attribute {name!r} outside the model")
+        raise AttributeError(name)
 
 
 class _cs(spmatrix):
